@@ -333,11 +333,45 @@ func emitDistrConfig(g *Gen, subs []gSub) {
 	}
 }
 
+// dust pattern: an internal account fed by a 10^-18-sized share and split again by several shares —
+// amounts of a few 10^-18 units, where rounding instead of truncating over-allocates
+func genDustConfig(g *Gen) []gSub {
+	mainAcc := gAcc{distrtypes.Main, ""}
+	i1 := gAcc{distrtypes.InternalAccount, "dust"}
+	mk := func(name string, v *big.Int, d gAcc) struct {
+		name  string
+		share *big.Int
+		dest  gAcc
+	} {
+		return struct {
+			name  string
+			share *big.Int
+			dest  gAcc
+		}{name, v, d}
+	}
+	a := gSub{name: "feed", sources: []gAcc{mainAcc}, primary: gAcc{distrtypes.ModuleAccount, "validators_rewards_collector"}, burn: big.NewInt(0)}
+	a.shares = append(a.shares, mk("tiny", big.NewInt(int64(1+g.intn(9))), i1))
+	b := gSub{name: "split", sources: []gAcc{i1}, primary: gAcc{distrtypes.ModuleAccount, "governance_booster_collector"}, burn: big.NewInt(0)}
+	sh := g.pick("300000000000000000", "333333333333333333", "250000000000000000", "499999999999999999")
+	for k := 0; k < 2+g.intn(2); k++ {
+		if new(big.Int).Mul(bigOf(sh), big.NewInt(int64(k+1))).Cmp(bigOf("1000000000000000000")) < 0 {
+			b.shares = append(b.shares, mk(fmt.Sprintf("d%d", k), bigOf(sh), gAcc{distrtypes.BaseAccount, baseAddr(k)}))
+		}
+	}
+	return []gSub{a, b}
+}
+
 func genDistr(g *Gen, n int, faults bool) {
 	for sc := 0; sc < n; sc++ {
 		g.emit("reset distr %d", sc)
 		emitDistrFacts(g)
 		subs := genDistrConfig(g)
+		dust := false
+		if g.chance(0.1) {
+			subs = genDustConfig(g)
+			dust = true
+			g.count("config/dust")
+		}
 		if g.chance(0.08) && len(subs) > 1 {
 			// shuffled order: usually violates the ordering rule
 			g.r.Shuffle(len(subs), func(i, j int) { subs[i], subs[j] = subs[j], subs[i] })
@@ -364,7 +398,11 @@ func genDistr(g *Gen, n int, faults bool) {
 		nb := 2 + g.intn(6)
 		for b := 0; b < nb; b++ {
 			for k := 0; k < g.intn(3); k++ {
-				g.emit("d.credit %s %s", targets[g.intn(len(targets))], genInflowCoins(g))
+				if dust {
+					g.emit("d.credit %s [uc4e=%d]", targets[0], 1+g.intn(3))
+				} else {
+					g.emit("d.credit %s %s", targets[g.intn(len(targets))], genInflowCoins(g))
+				}
 			}
 			if faults && g.chance(0.6) {
 				var ks []string
@@ -421,9 +459,13 @@ func genDistrUpd(g *Gen, n int) {
 					g.r.Shuffle(len(ns), func(a, b int) { ns[a], ns[b] = ns[b], ns[a] })
 				}
 				emitDistrConfig(g, ns)
-				g.emit("d.update full %s", auth)
-				if auth == "gov" {
-					subs = ns
+				if g.chance(0.25) {
+					g.emit("d.update full-then-fail %s", auth)
+				} else {
+					g.emit("d.update full %s", auth)
+					if auth == "gov" {
+						subs = ns
+					}
 				}
 			case 1:
 				// replace one sub-distributor: same name, freshly generated body (often breaks the ordering rule)
